@@ -523,6 +523,97 @@ def gen_ser(lines):
 
 
 GENERATORS.append(("Ser", gen_ser))
+# ------------------------------------------------------------------ map.rs / number.rs (C17)
+def cfg_return(body, feature_on):
+    """the expression after `#[cfg(feature = "preserve_order")]` (or `not(...)`) inside a fn body"""
+    attr = r'#\[cfg\(feature\s*=\s*"preserve_order"\)\]' if feature_on else r'#\[cfg\(not\(feature\s*=\s*"preserve_order"\)\)\]'
+    m = re.search(attr + r"\s*(?:return\s+)?([^;]*);", body or "", re.S)
+    return re.sub(r"\s+", "", m.group(1)) if m else None
+
+
+def gen_map(lines):
+    t = src("map.rs")
+    i_map = t.index("impl Map<String, Value>")
+    i_occ = t.index("impl<'a> OccupiedEntry<'a>")
+    mp, oc = t[i_map:i_occ], t[i_occ:]
+    # which IndexMap removal the order-agnostic names forward to: 0 = swap_*, 1 = shift_*
+    for name, text, fn in (("mapRemoveFwd", mp, "remove"), ("mapRemoveEntryFwd", mp, "remove_entry"),
+                           ("occRemoveFwd", oc, "remove"), ("occRemoveEntryFwd", oc, "remove_entry")):
+        body = fn_body(text, r"pub fn %s\b[^{]*\{" % fn)
+        e = cfg_return(body, True)
+        suffix = "_entry" if fn.endswith("_entry") else ""
+        code = None
+        if e is not None:
+            mm = re.fullmatch(r"self\.(?:map\.|occupied\.)?(swap|shift)_remove%s\((?:key)?\)" % suffix, e)
+            if mm: code = 0 if mm.group(1) == "swap" else 1
+        if code is None:
+            miss("map." + name, "preserve_order arm of %s is not a swap_/shift_ forward: %r" % (fn, e)); code = 2
+        d = cfg_return(body, False)
+        if d is None or not re.fullmatch(r"self\.(map|occupied)\.%s\((?:key)?\)" % fn, d):
+            miss("map." + name + ".default", "default arm of %s does not forward to BTreeMap::%s: %r" % (fn, fn, d))
+        owner = "Map" if text is mp else "OccupiedEntry"
+        lines.append("/-- `%s::%s` under preserve_order forwards to: 0 = `swap_%s`, 1 = `shift_%s` -/" % (owner, fn, fn, fn))
+        lines.append("def %s : Nat := %d" % (name, code))
+    body = fn_body(mp, r"pub fn append\b[^{]*\{")
+    po, df = cfg_return(body, True), cfg_return(body, False)
+    ok_po = po is not None and re.fullmatch(r"self\.map\.extend\(mem::replace\(&mutother\.map,MapImpl::default\(\)\)\)", po)
+    ok_df = df == "self.map.append(&mutother.map)"
+    if not ok_po: miss("map.append.po", "preserve_order append is not extend(mem::replace(other)): %r" % po)
+    if not ok_df: miss("map.append.default", "default append is not BTreeMap::append: %r" % df)
+    lines.append("/-- `append`: preserve_order = `extend(mem::replace(&mut other.map, default))`, default = `BTreeMap::append` -/")
+    lines.append("def mapAppendAsDocumented : Bool := %s" % ("true" if ok_po and ok_df else "false"))
+    body = fn_body(mp, r"pub fn sort_keys\b[^{]*\{")
+    e = cfg_return(body, True)
+    srt = e in ("self.map.sort_unstable_keys()", "self.map.sort_keys()")
+    if not srt: miss("map.sort_keys", "preserve_order sort_keys does not call sort_(unstable_)keys: %r" % e)
+    lines.append("/-- `sort_keys` under preserve_order sorts by key (`%s`); the default build does nothing -/" % e)
+    lines.append("def mapSortKeysSorts : Bool := %s" % ("true" if srt else "false"))
+    for fn in ("insert", "retain", "clear", "len", "get", "contains_key"):
+        body = fn_body(mp, r"pub fn %s\b[^{]*\{" % fn)
+        if body is None or not re.search(r"self\.map\.%s\(" % fn, body):
+            miss("map.forward." + fn, "Map::%s no longer forwards to self.map.%s" % (fn, fn))
+    # impl Hash for Map: preserve_order collects, sorts by key, hashes the Vec
+    i_h = t.index("impl Hash for Map<String, Value>")
+    body = fn_body(t[i_h:], r"fn hash\b[^{]*\{")
+    b = re.sub(r"\s+", "", body or "")
+    sorts = "kv.sort_unstable_by(|a,b|a.0.cmp(b.0));kv.hash(state);" in b and "Vec::from_iter(&self.map)" in b
+    if not sorts: miss("map.hash.sort", "preserve_order Hash does not sort the entries by key before hashing")
+    if "self.map.hash(state);" not in b: miss("map.hash.default", "default Hash does not forward to BTreeMap::hash")
+    lines.append("/-- `impl Hash for Map` (preserve_order): entries collected, sorted by key, then hashed as a Vec -/")
+    lines.append("def mapHashSortsEntries : Bool := %s" % ("true" if sorts else "false"))
+    # impl PartialEq for Map forwards to the backing store
+    i_e = t.index("impl PartialEq for Map<String, Value>")
+    body = fn_body(t[i_e:], r"fn eq\b[^{]*\{")
+    if "self.map.eq(&other.map)" not in re.sub(r"\s+", "", body or ""):
+        miss("map.eq", "Map::eq does not forward to the backing store's eq")
+    # number.rs: Hash for N
+    n = src("number.rs")
+    i_n = n.index("impl Hash for N")
+    body = re.sub(r"\s+", "", re.sub(r"//[^\n]*", "", fn_body(n[i_n:], r"fn hash\b[^{]*\{") or ""))
+    norm = "N::Float(f)=>{iff==0.0f64{0.0f64.to_bits().hash(h);}else{f.to_bits().hash(h);}}" in body
+    if not norm: miss("map.number.hash", "Hash for N no longer hashes +0.0's bits for both zeros")
+    ints = "N::PosInt(i)=>i.hash(h),N::NegInt(i)=>i.hash(h)," in body
+    if not ints: miss("map.number.hash.int", "Hash for N: integer arms changed")
+    lines.append("/-- `impl Hash for N`: `Float(f)` hashes `0.0f64.to_bits()` when `f == 0.0`, else `f.to_bits()` -/")
+    lines.append("def numHashZeroNormalised : Bool := %s" % ("true" if norm else "false"))
+    i_p = n.index("impl PartialEq for N")
+    body = re.sub(r"\s+", "", fn_body(n[i_p:], r"fn eq\b[^{]*\{") or "")
+    want = "(N::PosInt(a),N::PosInt(b))=>a==b,(N::NegInt(a),N::NegInt(b))=>a==b,(N::Float(a),N::Float(b))=>a==b,_=>false,"
+    if want not in body: miss("map.number.eq", "PartialEq for N changed")
+    # value/mod.rs: derive on Value, sort_all_objects
+    v = src("value/mod.rs")
+    if not re.search(r"#\[derive\(([^)]*)\)\]\s*pub enum Value", v) or not all(
+            x in re.search(r"#\[derive\(([^)]*)\)\]\s*pub enum Value", v).group(1) for x in ("Eq", "PartialEq", "Hash")):
+        miss("map.value.derive", "Value no longer derives Eq, PartialEq, Hash")
+    body = re.sub(r"\s+", "", fn_body(v, r"pub fn sort_all_objects\b[^{]*\{") or "")
+    rec = ("Value::Object(map)=>{map.sort_keys();map.values_mut().for_each(Value::sort_all_objects);}" in body
+           and "Value::Array(list)=>{list.iter_mut().for_each(Value::sort_all_objects);}" in body)
+    if not rec: miss("map.sort_all_objects", "sort_all_objects is not sort_keys + recursion into object values and array elements")
+    lines.append("/-- `sort_all_objects` = `sort_keys` on every object, recursing through object values and array elements -/")
+    lines.append("def sortAllRecurses : Bool := %s" % ("true" if rec else "false"))
+
+
+GENERATORS.append(("Map", gen_map))
 
 
 def main():
